@@ -340,6 +340,7 @@ def pHOp : P HOp := do
     | "CookieRT" => pure (Headers.Op.setCookie (ship.getD 0 []))
     | "Data" => pure (Headers.Op.data (a 0))
     | "Reader" => pure (Headers.Op.reader (a 0) (keys.getD 1 []) (a 2))
+    | "AppFail" => pure (Headers.Op.failHeaders (keys.getD 0 []) (args.drop 2) (a 1))
     | _ => failure
   if name == "CookieRT" then
     pure { op := op, keys := keys.take 1, rt := some (!(ship.getD 0 []).isEmpty, a 1) }
